@@ -1,5 +1,5 @@
 //! Development aid (not a check).
 pub(crate) fn run() -> i32 {
-    crate::verif::props::c18::debug_case();
+    crate::verif::props::c06::debug_case();
     0
 }
